@@ -507,6 +507,6 @@ CLAIM = {
             "forks on witnessed points). submit;cancel restores all ledgers exactly, submit;execute settles with fee, also for the "
             "first order of a symbol. Deltas are state independent, so this extends to every operation sequence. Position size "
             "update mirrors the base balance, and Position._on_executed_order on a spot exchange never leaves a negative size (sell "
-            "<, =, > the position, flat position, both reduce_only flags); ledger stores go through exact decimal helpers. Not decided: float rounding inside Decimal(str(.)). Histories through the order's own transitions (submit, then every two-step sequence of Order.execute / Order.cancel on the repository's SpotExchange) equal the cash account fed with the effective operations only (R8).",
+            "<, =, > the position, flat position, both reduce_only flags); ledger stores go through exact decimal helpers. Not decided: float rounding inside Decimal(str(.)). Histories through the order's own transitions (submit, then every two-step sequence of Order.execute / Order.cancel on the repository's SpotExchange) equal the cash account fed with the effective operations only (R8). The per-symbol tables share no mutable value (R10); memo invalidation completeness of SpotExchange (R9).",
     "note": "Trusted: interpreter semantics; exact-arithmetic model of sum_floats/subtract_floats; grid distinguishes linear predicates over the small integers used.",
 }
